@@ -128,6 +128,9 @@ def path_expand(fl, path, e, pos, depth=8):
             how = fl.def_how(d, n.id)
             if how[0] == "assign":
                 return path_expand(fl, path, how[1], i, depth - 1)
+            if how[0] == "aug":
+                prev = path_expand(fl, path, ast.Name(id=n.id, ctx=ast.Load()), i, depth - 1)
+                return ast.BinOp(left=prev, op=how[1], right=path_expand(fl, path, how[2], i, depth - 1))
             if how[0] in ("param", "other"):
                 return n
             if len(defs) == 1:
@@ -150,7 +153,8 @@ def table(fl, limit=4000, keep_infeasible=False):
                 t = n.test
                 if t.kind == "test":
                     r.tests.append((t, n.label))
-                    for a, tr in edge_facts(fl.expand(t.expr, t), n.label):
+                    tpos = max(i for i, x in enumerate(path[:pos]) if x is t)
+                    for a, tr in edge_facts(path_expand(fl, path, t.expr, tpos), n.label):
                         k, tv = atom_key(a, tr)
                         if k in seen and seen[k][0] != tv and (_pure_local(a) or not any(_changes_state(x) for x in path[seen[k][1]:pos])):
                             feasible = False
@@ -273,7 +277,10 @@ def implied(fl, row, pred, limit=10):
     condition is the conjunction of (test == edge taken); compound tests are evaluated propositionally over their atoms
     (finite truth table, at most 2**limit rows), so `not (a and b)` together with `a` yields `not b`."""
     import itertools
-    tests = [(fl.expand(t.expr, t), lab) for t, lab in row.tests]
+    tests = []
+    for t, lab in row.tests:
+        tpos = [i for i, x in enumerate(row.nodes) if x is t]
+        tests.append((path_expand(fl, row.nodes, t.expr, tpos[0]) if tpos else fl.expand(t.expr, t), lab))
     atoms = {}
     for e, _ in tests:
         _atoms_of(e, atoms)
